@@ -256,3 +256,54 @@ Fixpoint lookup_ext (c : Z * Z * Z) (tbl : list (Z * Z * Z * script)) : script :
   end.
 
 Definition table_ext (tbl : list (Z * Z * Z * script)) : ext_sched := fun p => lookup_ext (point_code p) tbl.
+
+(* ================================================================================================
+   The loop reading from the link.  Each call of link.receive_packet(1) returns a packet, returns None
+   (timeout) or RAISES (a failing driver read).  run(): None -> next iteration; an exception of
+   receive_packet is not caught: it leaves run() (the thread ends, nothing more is read). *)
+Inductive read := RPacket (h : Z) | RNone | RRaise.
+
+Fixpoint run_stream (beh : behaviour) (n : Z) (rs : list read) (s : st) (log : list entry) : st * list entry * bool :=
+  match rs with
+  | [] => (s, log, true)
+  | RNone :: rest => run_stream beh n rest s log
+  | RRaise :: _ => (s, log, false)
+  | RPacket h :: rest =>
+      let '(s', log', alive) := dispatch beh n h s log in
+      if alive then run_stream beh (n + 1) rest s' log' else (s', log', false)
+  end.
+
+(* the headers of the packets the link handed out before its first failing read *)
+Fixpoint handed_out (rs : list read) : list Z :=
+  match rs with
+  | [] => []
+  | RNone :: rest => handed_out rest
+  | RRaise :: _ => []
+  | RPacket h :: rest => h :: handed_out rest
+  end.
+
+Fixpoint read_fails (rs : list read) : bool :=
+  match rs with
+  | [] => false
+  | RRaise :: _ => true
+  | _ :: rest => read_fails rest
+  end.
+
+(* the seeded change C07-k: the exception is swallowed and the loop falls through with the PREVIOUS packet still in
+   the local variable, which is dispatched again (a raise before any packet still ends the thread) *)
+Fixpoint run_stream_stale (beh : behaviour) (n : Z) (prev : option Z) (rs : list read) (s : st) (log : list entry)
+  : st * list entry * bool :=
+  match rs with
+  | [] => (s, log, true)
+  | RNone :: rest => run_stream_stale beh n None rest s log        (* pk = None: nothing stale any more *)
+  | RRaise :: rest =>
+      match prev with
+      | None => (s, log, false)                                    (* UnboundLocalError / pk is None: `continue` *)
+      | Some h =>
+          let '(s', log', alive) := dispatch beh (n - 1) h s log in
+          if alive then run_stream_stale beh n prev rest s' log' else (s', log', false)
+      end
+  | RPacket h :: rest =>
+      let '(s', log', alive) := dispatch beh n h s log in
+      if alive then run_stream_stale beh (n + 1) (Some h) rest s' log' else (s', log', false)
+  end.
